@@ -202,6 +202,42 @@ def run(ctx):
                         'without recording the operation output, so the saved recording is flagged incomplete',
                         witness=dx.path_to(n, s), exit=rm.exit_kind(n)))
 
+    # ---- C18.c (iii) while recording the recorder raises nothing of the family its own executor lets pass unrecorded: such an exception,
+    # raised into an operation body (e.g. by a nested operation's scope guard) and propagated, would make a *completed* run look cut short
+    from . import common
+    fam = set(excm.framework)
+    raisers = []
+    for m in roles.cls.methods.values():
+        if m in (roles.reader, roles.play):
+            continue
+        fns = [m]
+        stack = [f for f in m.nested.values() if not isinstance(f, list)]
+        while stack:
+            f = stack.pop()
+            fns.append(f)
+            stack.extend(x for x in f.nested.values() if not isinstance(x, list))
+        for f in fns:
+            for st_, conds in common.guards_of(f.node, lambda x: isinstance(x, ast.Raise) and x.exc is not None):
+                for r_ in [x for x in ast.walk(st_) if isinstance(x, ast.Raise) and x.exc is not None]:
+                    cn = r_.exc.func if isinstance(r_.exc, ast.Call) else r_.exc
+                    nm = norm(cn).split('.')[-1]
+                    try:
+                        atom = excm.atom_of(nm)
+                    except AnalysisError:
+                        continue
+                    if atom not in fam:
+                        continue
+                    lits = [l for t_, p_ in conds for l in common.split_literals(t_, p_)]
+                    in_replay = any('in_playback_mode' in norm(t_) and p_ for t_, p_ in lits)
+                    if not in_replay:
+                        raisers.append((f, r_, nm))
+    cc.instance('while recording the recorder raises no exception of the pass-through (framework) family', roles.cls.name, not raisers)
+    cc.evaluations += 1
+    for f, r_, nm in raisers[:2]:
+        res.add(Finding('C18', 'C18.c', 'R-MUSTPASS', f.file, f.qualname, r_.lineno, norm(r_)[:100],
+                        '%s raises %s outside replay: when that reaches an operation body (a nested operation on the same recorder) and propagates, '
+                        'the operation executor lets it pass without recording the outcome, so a run that ended with an ordinary exception is saved as '
+                        'incomplete' % (f.qualname, nm)))
     # ---- C18.d duration
     st_fn = roles.start.node
     dur_ok, why = duration_shape(roles, K_DUR)
@@ -341,6 +377,15 @@ def duration_shape(roles, K_DUR):
                         return False, 'the duration handed to the metadata step is `%s`, a component of the clock difference `%s` rather than the ' \
                                       'difference itself (whole seconds / days are dropped)' % (norm(e), norm(n.value))
                 return True, '%s: second read of %s() minus `%s` read before the try' % (norm(n), norm(l.func), r.id)
+    # the first read kept on the recorder instead of in the scope: any other scope attempt (a nested operation whose assertion
+    # fails, another thread) overwrites it while this run is still going on
+    for n in ast.walk(t):
+        if isinstance(n, ast.Assign) and isinstance(n.value, ast.BinOp) and isinstance(n.value.op, ast.Sub):
+            l, r = n.value.left, expand_locals(fn, n.value.right)
+            if isinstance(l, ast.Call) and _self_attr(r):
+                return False, 'the start of the run is kept in the recorder field `self.%s` (`%s`), not in the scope: another scope attempt on the ' \
+                              'same recorder (nested operation, other thread) overwrites it, so the saved duration is not this run\'s' % (
+                                  _self_attr(r), norm(n.value))
     raise AnalysisError('duration computation has a shape the rule does not model (expected `clock() - start` in the scope with '
                         '`start = clock()` before the try)')
 
